@@ -4,7 +4,7 @@ CONSTANTS
   Gen = "iter"
   Dev = {}
   LastBy = "identity"
-  MaxLines = 5
+  MaxLines = 4
   MaxDepth = 4
   MaxBlank = 2
   Names <- C15_Names
